@@ -955,11 +955,14 @@ def get_input_string(
     def graph():
         return gg.GrammarGraph.from_grammar(grammar)
 
-    return (
-        safe(lambda: json.loads(inp))()
-        .map(DerivationTree.from_parse_tree)
-        .map(lambda tree: eassert(tree, graph().tree_is_valid(tree)))
-        .lash(lambda _: safe(lambda: solver().parse(inp, skip_check=True))())
+    def parse_json_tree() -> DerivationTree:
+        tree = DerivationTree.from_parse_tree(json.loads(inp))
+        return eassert(tree, graph().tree_is_valid(tree))
+
+    # If the input is not the JSON representation of a derivation tree of the grammar
+    # (it may well be valid JSON, e.g., "12"), it is parsed as a string.
+    return safe(parse_json_tree)().lash(
+        lambda _: safe(lambda: solver().parse(inp, skip_check=True))()
     )
 
 
